@@ -19,20 +19,24 @@ import (
 	"bytes"
 	"context"
 	"encoding/binary"
+	"encoding/json"
 	"fmt"
 	"io"
 	"math/big"
 	"net"
 	"net/netip"
 	"strings"
+	"sync"
 	"testing"
 	"time"
 
 	"github.com/caddyserver/caddy/v2"
+	"github.com/caddyserver/caddy/v2/modules/caddyhttp"
 	"github.com/mastercactapus/proxyprotocol"
 	"go.uber.org/zap"
 
 	"github.com/mholt/caddy-l4/layer4"
+	_ "github.com/mholt/caddy-l4/modules/l4tls"
 )
 
 // ---------------------------------------------------------------- projection to Coq terms
@@ -690,7 +694,9 @@ var vC12Cidrs = []string{"10.0.0.0/8", "10.1.0.0/16", "10.1.2.0/24", "10.1.2.3/3
 	"10.0.0.5", "10.1.2.3", "192.168.5.5", "::1", "2001:db8:1::5", "::ffff:10.9.9.9", "10.0.0.5", "fe80::1"}
 var vC12Peers = []string{"10.1.2.3", "10.1.2.4", "10.1.3.4", "10.2.0.1", "11.0.0.1", "127.0.0.1", "192.168.5.5", "172.31.255.255", "172.32.0.0", "::1", "::2",
 	"2001:db8:1::5", "2001:db8:2::5", "2001:db9::", "fe80::1", "febf::1", "fec0::1", "::ffff:10.9.9.9", "::ffff:11.9.9.9", "8.8.8.8", "200.1.1.1", "0.0.0.0", "::",
-	"10.0.0.5", "10.0.0.4", "10.0.0.6", "10.9.9.9", "2001:db8:1::4", "172.16.3.4"}
+	"10.0.0.5", "10.0.0.4", "10.0.0.6", "10.9.9.9", "2001:db8:1::4", "172.16.3.4",
+	// zoned link-local (and other) peers
+	"fe80::1%eth0", "fe80::abcd:1%lo", "febf::1%eth1", "fec0::1%eth0", "::1%lo", "2001:db8:1::5%eth0"}
 
 func vC12RandAllow(r *vRng) []string {
 	n := []int{0, 1, 1, 2, 3, 4, 6}[r.Intn(7)]
@@ -704,18 +710,26 @@ func vC12RandAllow(r *vRng) []string {
 	return a
 }
 
+// s may carry an IPv6 zone ("fe80::1%eth0"): it ends up in the Zone field of the TCP/UDP
+// address, as the kernel reports link-local peers. Allow-list containment is a statement about
+// the IP: the zone is ignored by the reference predicate, by the projection to the model (vcIP)
+// and by the model (contains).
 func vC12PeerAddr(r *vRng, s string, kind int) net.Addr {
+	zone := ""
+	if i := strings.IndexByte(s, '%'); i >= 0 {
+		s, zone = s[:i], s[i+1:]
+	}
 	ip := net.ParseIP(s)
 	if p4 := ip.To4(); p4 != nil && !strings.Contains(s, ":") {
 		ip = p4
 	}
 	switch kind {
 	case 1:
-		return &net.UDPAddr{IP: ip, Port: 1 + r.Intn(65535)}
+		return &net.UDPAddr{IP: ip, Port: 1 + r.Intn(65535), Zone: zone}
 	case 2:
 		return &net.UnixAddr{Net: "unix", Name: "/peer"}
 	}
-	return &net.TCPAddr{IP: ip, Port: 1 + r.Intn(65535)}
+	return &net.TCPAddr{IP: ip, Port: 1 + r.Intn(65535), Zone: zone}
 }
 
 // the property text's notion: some configured CIDR contains the peer (an IPv4-mapped IPv6
@@ -882,11 +896,11 @@ func vC12IPMatch(m interface {
 func vC12HostOf(a net.Addr) string {
 	switch x := a.(type) {
 	case *net.TCPAddr:
-		if len(x.IP) > 0 {
+		if len(x.IP) > 0 && x.Zone == "" { // netip prefixes never contain a zoned address: matcher not consulted
 			return x.IP.String()
 		}
 	case *net.UDPAddr:
-		if len(x.IP) > 0 {
+		if len(x.IP) > 0 && x.Zone == "" {
 			return x.IP.String()
 		}
 	}
@@ -1113,6 +1127,225 @@ func (e *vC12) oracle(c vC12Case, o vC12Obs, allowed, valid bool, wantRemote, wa
 	}
 }
 
+// ---------------------------------------------------------------- through a compiled route list
+//
+//	route 0: match proxy_protocol                  -> handle proxy_protocol (allow ...)   not terminal
+//	route 1: match remote_ip|local_ip <declared>   -> recorder "by-address"               terminal
+//	route 2: match tls (a byte matcher, 5+ bytes)  -> recorder "tls"                      terminal (optional)
+//	fallback                                       -> recorder "fallback"
+//
+// The address matcher of route 1 is placed AFTER the handler: it must see the address the header
+// declares, whatever the segmentation (in particular when the first segment is shorter than the
+// byte matchers need, so that route 1 was already evaluated once against the real peer address).
+// Only headers that declare addresses different from the real ones are used, and no route matches
+// the real addresses: the router would rightly take such a route before the header is complete.
+
+type vC12Rec struct {
+	Tag string `json:"tag,omitempty"`
+}
+
+type vC12RouteObs struct {
+	tag            string
+	obs            vC12Obs
+	n              int
+	want, wantPass int // bytes the recorder reads after an accepted header / on an untouched stream
+}
+
+var (
+	vC12RecMu   sync.Mutex
+	vC12RecCur  *vC12RouteObs
+	vC12RecOnce sync.Once
+)
+
+func (vC12Rec) CaddyModule() caddy.ModuleInfo {
+	return caddy.ModuleInfo{ID: "layer4.handlers.verif_c12_record", New: func() caddy.Module { return new(vC12Rec) }}
+}
+
+func vC12Record(tag string, c *layer4.Connection) {
+	o := vC12Obs{kind: "next"}
+	if c.GetVar("l4.proxy_protocol.conn") == nil {
+		o.kind = "pass"
+	}
+	o.remote, o.local = c.RemoteAddr(), c.LocalAddr()
+	if repl, ok := c.Context.Value(layer4.ReplacerCtxKey).(*caddy.Replacer); ok {
+		rv, ok1 := repl.Get("l4.conn.remote_addr")
+		lv, ok2 := repl.Get("l4.conn.local_addr")
+		o.replRemote, _ = rv.(net.Addr)
+		o.replLocal, _ = lv.(net.Addr)
+		o.replOK = ok1 && ok2 && o.replRemote != nil && o.replLocal != nil
+	}
+	// the client keeps its side open until the route list returns (net.Pipe refuses deadlines once
+	// the peer has closed, which the router sets while matching): read what is expected, bounded in time
+	vC12RecMu.Lock()
+	want := 0
+	if vC12RecCur != nil {
+		want = vC12RecCur.want
+		if o.kind == "pass" {
+			want = vC12RecCur.wantPass
+		}
+	}
+	vC12RecMu.Unlock()
+	_ = c.SetReadDeadline(time.Now().Add(2 * time.Second))
+	buf := make([]byte, want)
+	n, _ := io.ReadFull(c, buf)
+	o.data = buf[:n]
+	vC12RecMu.Lock()
+	if vC12RecCur != nil {
+		vC12RecCur.n++
+		if vC12RecCur.n == 1 {
+			vC12RecCur.tag, vC12RecCur.obs = tag, o
+		}
+	}
+	vC12RecMu.Unlock()
+}
+
+func (r *vC12Rec) Handle(c *layer4.Connection, _ layer4.Handler) error {
+	vC12Record(r.Tag, c)
+	return nil
+}
+
+func (e *vC12) routeCases(base []vHdr) {
+	vC12RecOnce.Do(func() { caddy.RegisterModule(vC12Rec{}) })
+	ctx, cancel := caddy.NewContext(caddy.Context{Context: context.Background()})
+	defer cancel()
+	js := func(v any) json.RawMessage {
+		b, err := json.Marshal(v)
+		if err != nil {
+			panic(err)
+		}
+		return b
+	}
+	real := &net.TCPAddr{IP: net.IPv4(10, 1, 1, 1).To4(), Port: 40000}
+	loc := &net.TCPAddr{IP: net.IPv4(10, 1, 1, 2).To4(), Port: 9000}
+	payload := []byte("hello after the header")
+	runs, variant := 0, 0
+	for _, h := range base {
+		src, dst := h.declared()
+		if src == nil || vC12HostOf(src) == "" || len(h.tlvs) > 0 {
+			continue // headers that declare nothing (or no IP addresses), and TLV headers the library rejects
+		}
+		hbytes := h.encode()
+		stream := append(append([]byte{}, hbytes...), payload...)
+		for _, allow := range [][]string{nil, {"10.0.0.0/8"}, {"192.0.2.0/24"}} {
+			variant++
+			byLocal := variant%2 == 0
+			withTLS := variant%3 != 0
+			allowed := vC12Allowed(allow, real)
+			matcher, rng := "remote_ip", vC12HostOf(src)
+			if byLocal {
+				matcher, rng = "local_ip", vC12HostOf(dst)
+			}
+			hj := map[string]any{"handler": "proxy_protocol"}
+			if allow != nil {
+				hj["allow"] = allow
+			}
+			routes := layer4.RouteList{
+				&layer4.Route{MatcherSetsRaw: caddyhttp.RawMatcherSets{caddy.ModuleMap{"proxy_protocol": js(map[string]any{})}}, HandlersRaw: []json.RawMessage{js(hj)}},
+				&layer4.Route{MatcherSetsRaw: caddyhttp.RawMatcherSets{caddy.ModuleMap{matcher: js(map[string]any{"ranges": []string{rng}})}},
+					HandlersRaw: []json.RawMessage{js(map[string]any{"handler": "verif_c12_record", "tag": "by-address"})}},
+			}
+			if withTLS {
+				routes = append(routes, &layer4.Route{MatcherSetsRaw: caddyhttp.RawMatcherSets{caddy.ModuleMap{"tls": js(map[string]any{})}},
+					HandlersRaw: []json.RawMessage{js(map[string]any{"handler": "verif_c12_record", "tag": "tls"})}})
+			}
+			if err := routes.Provision(ctx); err != nil {
+				panic(err)
+			}
+			compiled := routes.Compile(zap.NewNop(), 20*time.Second, layer4.HandlerFunc(func(c *layer4.Connection) error {
+				vC12Record("fallback", c)
+				return nil
+			}))
+			// segmentations: whole, header|payload, the header cut at every position (1..4 bytes first
+			// included), two cuts with a very short first segment
+			var segss [][][]byte
+			segss = append(segss, [][]byte{stream}, [][]byte{hbytes, payload})
+			for k := 1; k < len(hbytes); k++ {
+				segss = append(segss, [][]byte{stream[:k], stream[k:]})
+			}
+			for _, k := range []int{1, 2, 3, 4} {
+				if len(hbytes) > 20 {
+					segss = append(segss, [][]byte{stream[:k], stream[k:20], stream[20:]}, [][]byte{stream[:k], stream[k:len(hbytes)], stream[len(hbytes):]})
+				}
+			}
+			emitted := false
+			for _, segs := range segss {
+				cur := &vC12RouteObs{want: len(payload), wantPass: len(stream)}
+				vC12RecMu.Lock()
+				vC12RecCur = cur
+				vC12RecMu.Unlock()
+				in, out := net.Pipe()
+				cx := layer4.WrapConnection(&vC12Conn{Conn: in, remote: real, local: loc}, []byte{}, zap.NewNop())
+				done := make(chan struct{})
+				go func() {
+					defer close(done)
+					for _, sg := range segs {
+						if len(sg) == 0 {
+							continue
+						}
+						if _, err := out.Write(sg); err != nil {
+							break
+						}
+					}
+				}()
+				herr := compiled.Handle(cx)
+				in.Close()
+				<-done
+				out.Close()
+				vC12RecMu.Lock()
+				vC12RecCur = nil
+				vC12RecMu.Unlock()
+				runs++
+				lens := make([]int, len(segs))
+				for i, sg := range segs {
+					lens[i] = len(sg)
+				}
+				inp := map[string]any{"routes": fmt.Sprintf("[proxy_protocol -> proxy_protocol allow=%v] [%s %s -> by-address] tls-route=%v fallback", allow, matcher, rng, withTLS),
+					"peer": real.String(), "local": loc.String(), "header": fmt.Sprintf("%q", hbytes), "header_kind": h.name(), "segment_lengths": lens,
+					"route_taken": cur.tag, "handlers_reached": cur.n, "error": fmt.Sprint(herr)}
+				if cur.n != 1 || herr != nil {
+					e.out.Fail("C12:route:no-handler-reached", "the route list did not hand the connection to exactly one terminal handler", inp)
+					continue
+				}
+				o := cur.obs
+				if !emitted {
+					emitted = true
+					e.emit(fmt.Sprintf("CHandle 0 %s %s %s %s %s", vcNets(allow), vcAddr(real), vcAddr(loc), cHex(stream), o.coq()), "route/"+h.name(), true, nil)
+				}
+				if !allowed {
+					if cur.tag != "fallback" || o.kind != "pass" || !bytes.Equal(o.data, stream) || !vC12SameAddr(o.remote, real) || !vC12SameAddr(o.local, loc) {
+						key := "C12:allow:passthrough-modified"
+						if o.kind == "next" {
+							key = "C12:allow:parsed-outside-allow-list"
+						}
+						e.out.Fail(key, "a peer outside the allow list must reach the fallback with its stream and addresses untouched", inp)
+					}
+					continue
+				}
+				if cur.tag != "by-address" {
+					e.out.Fail("C12:matcher:"+matcher+"-mismatch", "the "+matcher+" matcher placed after the proxy_protocol handler did not see the address the header declares (route taken: "+cur.tag+")", inp)
+					continue
+				}
+				if !bytes.Equal(o.data, payload) {
+					e.out.Fail("C12:strip:payload-differs", "behind the route list the bytes after the header differ from the payload", inp)
+				}
+				if !vC12SameAddr(o.remote, src) {
+					e.out.Fail("C12:addr:remote-mismatch", "behind the route list RemoteAddr() differs from the declared source address", inp)
+				}
+				if !vC12SameAddr(o.local, dst) {
+					e.out.Fail("C12:addr:local-mismatch", "behind the route list LocalAddr() differs from the declared destination address", inp)
+				}
+				if !o.replOK || !vC12SameAddr(o.replRemote, o.remote) {
+					e.out.Fail("C12:placeholder:remote_addr-stale", "behind the route list {l4.conn.remote_addr} is not the address the connection reports", inp)
+				}
+				if !o.replOK || !vC12SameAddr(o.replLocal, o.local) {
+					e.out.Fail("C12:placeholder:local_addr-stale", "behind the route list {l4.conn.local_addr} is not the address the connection reports", inp)
+				}
+			}
+		}
+	}
+	e.out.Stat("route_runs", runs)
+}
+
 func vC12Payload(r *vRng, n int) []byte {
 	b := r.Bytes(n)
 	if n > 0 && r.Intn(3) == 0 {
@@ -1165,7 +1398,8 @@ func TestVerifC12(t *testing.T) {
 	fixed := [][]string{nil, {"10.0.0.0/8"}, {"10.1.2.0/24", "10.0.0.0/8", "10.1.2.0/24"}, {"::1/128", "127.0.0.0/8"}, {"::ffff:10.0.0.0/104"},
 		{"2001:db8::/32", "10.0.0.0/8", "2001:db8::/32", "10.0.0.0/8", "fe80::/10"}, {"0.0.0.0/0"}, {"::/0"}, {"0.0.0.0/1", "128.0.0.0/1"},
 		{"10.0.0.0/8", "11.0.0.0/8", "10.0.0.0/8"}, {"10.1.2.77/24", "10.1.2.0/24"},
-		{"10.0.0.5"}, {"::1"}, {"10.0.0.5", "2001:db8:1::5"}, {"::ffff:10.9.9.9"}, {"10.0.0.5", "10.0.0.5/32", "192.168.0.0/16"}, {"fe80::1", "10.1.2.3"}}
+		{"10.0.0.5"}, {"::1"}, {"10.0.0.5", "2001:db8:1::5"}, {"::ffff:10.9.9.9"}, {"10.0.0.5", "10.0.0.5/32", "192.168.0.0/16"}, {"fe80::1", "10.1.2.3"},
+		{"fe80::/10"}, {"fe80::/10", "10.0.0.0/8"}, {"::1/128"}}
 	for _, a := range fixed {
 		e.allowCases(a, 0)
 	}
@@ -1189,6 +1423,19 @@ func TestVerifC12(t *testing.T) {
 			e.e2e(vC12Case{allow: []string{"::1", "10.0.0.5"}, remote: &net.TCPAddr{IP: net.ParseIP("::2"), Port: 40000}, local: loc, hdr: &hh, hbytes: h.encode(), payload: vC12Payload(r, 10)})
 		}
 	}
+	// zoned link-local peers (Zone set on the TCP/UDP address) inside and outside the allow list
+	loc6 := &net.TCPAddr{IP: net.ParseIP("fe80::ffff"), Port: 443, Zone: "eth0"}
+	for i, h := range base {
+		hh := h
+		if i%3 != 1 {
+			continue
+		}
+		e.e2e(vC12Case{allow: []string{"fe80::/10"}, remote: &net.TCPAddr{IP: net.ParseIP("fe80::1"), Port: 40001, Zone: "eth0"}, local: loc6, hdr: &hh, hbytes: h.encode(), payload: vC12Payload(r, 10)})
+		e.e2e(vC12Case{allow: []string{"10.0.0.0/8", "fe80::/10"}, remote: &net.UDPAddr{IP: net.ParseIP("fe80::abcd:1"), Port: 40002, Zone: "lo"}, local: loc6, hdr: &hh, hbytes: h.encode(), payload: vC12Payload(r, 10)})
+		e.e2e(vC12Case{allow: []string{"fe80::/10"}, remote: &net.TCPAddr{IP: net.ParseIP("fec0::1"), Port: 40003, Zone: "eth0"}, local: loc6, hdr: &hh, hbytes: h.encode(), payload: vC12Payload(r, 10)})
+	}
+	// through a real compiled route list, with address matchers AFTER the handler
+	e.routeCases(base)
 	// header-less peers outside the list: arbitrary first bytes pass untouched
 	for _, s := range []string{"GET / HTTP/1.1\r\n\r\n", "\x16\x03\x01\x00\x05hello", "", "PROXY garbage"} {
 		e.e2e(vC12Case{allow: []string{"192.168.0.0/16"}, remote: peerIn, local: loc, hbytes: []byte(s), payload: vC12Payload(r, 5)})
